@@ -77,14 +77,16 @@ def gen(R, tier):
     if level == 'base':
         # annotated node somewhere in a small chain/branch, other nodes plain
         pre = R.choice(['', '[#B]', '[#B]([#C])', '[#B]1[#C]'])
-        post = R.choice(['', '[#C]', '=[#C]', '([#C])[#B]'])
+        post = R.choice(['', '[#C]', '=[#C]', '([#C])[#B]', '|3', '|2=[#C]', '([#B])|2', '([#B][#C])|3[#C]'])
         if pre == '[#B]1[#C]':
             post = '[#C]1'
         template = '{%s[#A@]%s}' % (pre, post)
         frags = '{#A=[$]CC[$],#B=[$]O[$],#C=[$]N[$][$]}'
         variants = [template.replace('@', a) for a in arr]
         idx = {'': 0, '[#B]': 1, '[#B]([#C])': 2, '[#B]1[#C]': 2}[pre]
-        case = dict(level=level, node=idx, frags=frags)
+        # every copy made by the multiplication operator carries the annotation
+        copies = {'|3': [0, 1, 2], '|2=[#C]': [0, 1], '([#B])|2': [0, 2], '([#B][#C])|3[#C]': [0, 3, 6]}.get(post, [0])
+        case = dict(level=level, node=idx, nodes=[idx + c for c in copies], frags=frags)
     elif level == 'coarse':
         n = R.randint(1, 4)
         k = R.randrange(n)
@@ -103,6 +105,12 @@ def gen(R, tier):
         template = R.choice(['[$]C([H@])[$]', '[$]N([H@])C[$]', '[$]C([H@])([H])O[$]'])
         variants = [template.replace('@', a) for a in arr]
         case = dict(level=level, node=1, natoms=2, explicit_h=True)
+    elif R.chance(0.15):
+        # annotated ring atom after an aliphatic/aromatic letter pair and ring digits
+        template, k = R.choice([('[$]CSc1cc[cH@]cc1', 5), ('[$]Sc1ccc([cH@]c1)Cl', 5), ('[$]NCc1c[cH@]ncc1', 4),
+                                ('ClCC(Br)[CH@]([$])Cl', 4)])
+        variants = [template.replace('@', a) for a in arr]
+        case = dict(level=level, node=k, natoms=6)
     else:
         n = R.randint(1, 4)
         k = R.randrange(n)
@@ -163,17 +171,20 @@ def oracle(case):
             want = {'charge': 0.0, 'weight': 1.0}
             want.update(given)
             g = sut(read_cgsmiles, text)
-            d = dict(g.nodes[case['node']])
             w2 = dict(want)
             w2['fragname'] = 'A'
-            _check_attrs(d, w2, 'read_cgsmiles(%s) node %d' % (text, case['node']), True)
+            annotated = case.get('nodes', [case['node']])
+            for k in annotated:
+                expect(k in g, 'annotation:missing', lambda: 'read_cgsmiles(%s) has no node %d' % (text, k))
+                _check_attrs(dict(g.nodes[k]), w2, 'read_cgsmiles(%s) node %d' % (text, k), True)
             for n in g.nodes:
-                if n != case['node']:
+                if n not in annotated:
                     dd = g.nodes[n]
                     expect(dd.get('charge') == 0.0 and dd.get('weight') == 1.0 and set(dd) == {'fragname', 'charge', 'weight'},
                            'annotation:leak', lambda: 'read_cgsmiles(%s): plain node %d has %r' % (text, n, dict(dd)))
             cg, fine = sut(lambda: MoleculeResolver.from_string(text + '.' + case['frags']).resolve_all())
-            _check_attrs(dict(cg.nodes[case['node']]), want, 'coarse graph of %s node %d' % (text, case['node']), False)
+            for k in annotated:
+                _check_attrs(dict(cg.nodes[k]), want, 'coarse graph of %s node %d' % (text, k), False)
             continue
         coarse = (level == 'coarse')
         full = case['base'] + '.{#X=' + text + '}'
